@@ -234,6 +234,16 @@ func (t *pfTr) readKey(c *ast.CallExpr, en pfEnv) (string, bool) {
 			}
 		}
 		if part == "" {
+			// a field of a struct-valued input: named by that input's key
+			if se, ok := a.(*ast.SelectorExpr); ok {
+				if path, root := t.fieldPath(se); root != nil {
+					if v, ok := en[t.objOf(root)]; ok && strings.HasPrefix(v, pfInPrefix) {
+						part = "{" + v[len(pfInPrefix):] + "}." + strings.Join(path, ".")
+					}
+				}
+			}
+		}
+		if part == "" {
 			part = "<" + t.src(a) + ">"
 		}
 		parts = append(parts, part)
